@@ -199,7 +199,11 @@ func dedupReports(src []Report, showDuplicates bool) (dst [][]Report) {
 			continue
 		}
 		// Skip this report if we have exact same message already
-		if dst[index][0].Problem.Summary == report.Problem.Summary && dst[index][0].Problem.Details == report.Problem.Details {
+		if slices.ContainsFunc(dst[index], func(r Report) bool {
+			return r.Problem.Summary == report.Problem.Summary &&
+				r.Problem.Details == report.Problem.Details &&
+				isSameDiagnostics(r.Problem.Diagnostics, report.Problem.Diagnostics)
+		}) {
 			continue
 		}
 		dst[index] = append(dst[index], report)
